@@ -251,7 +251,8 @@ def write_replay(prop_id, viol):
 
 
 def write_evidence(prop_id, tier, seed, level, ev, wall_s, rule, assumptions, violations, extra=None):
-    d = os.path.join(VERIF, "evidence")
+    # sensitivity experiments (VERIF_REPO pointing at a scratch copy) must not overwrite the committed evidence
+    d = os.environ.get("VERIF_EVIDENCE_DIR") or os.path.join(VERIF, "evidence")
     os.makedirs(d, exist_ok=True)
     cov = {
         "evaluations": ev.evaluations,
